@@ -271,7 +271,7 @@ def eval_subproc(case):
 
 def strat_peer():
     trouble = st.sampled_from([None, None, None, ['connect', 'refuse'], ['connect', 'close'], ['connect', 'timeout'], ['banner', 'close'], ['kexinit', 'stall'], ['gex_group', 'close']])
-    return st.tuples(st.one_of(gens.rated_peer(), gens.rated_peer(), gens.rated_peer(), gens.all_clean_peer()), st.sampled_from(['server', 'server', 'client']), st.one_of(st.none(), st.none(), gens.unknown_name(12).filter(lambda s: not s.startswith('gss-')), gens.gss_name()),
+    return st.tuples(st.one_of(gens.rated_peer(), gens.rated_peer(), gens.rated_peer(), gens.all_clean_peer()), st.sampled_from(['server', 'server', 'client']), st.one_of(st.none(), st.none(), gens.unknown_name(12).filter(lambda s: not s.startswith('gss-')), gens.gss_name(), st.sampled_from(['zz\x1b[2Kname', 'del\x7fname', 'bel\x07l', 'esc\x1b]0;t\x07'])),
                      st.sampled_from([False, False, True]), trouble, st.booleans(),
                      # what the peer announces about itself (protocol 1 still enabled, other products, nothing recognisable) is one more thing the options must not interact with
                      st.sampled_from([None, None, None, 'SSH-1.99-OpenSSH_8.9', 'SSH-1.99-dropbear_2020.81', 'SSH-2.0-libssh_0.9.6', 'SSH-2.0-x', 'SSH-1.99-Cisco-1.25', 'SSH-2.0-OpenSSH_10.0', 'SSH-2.0-PuTTY_Release_0.78', 'SSH-2.0-OpenSSH_7.2 \x01odd'])).map(
